@@ -208,7 +208,15 @@ def _gen_request(draws, spec, bundle, idx, profile, want_mut, tier="quick",
         for i in range(len(text) - 1):
             if text[i] == "\\" and text[i + 1] == "u":
                 hotter.extend(range(i + 2, min(len(text), i + 7)))
-        if hotter and rs.chance(1, 4, "cut_hotter"):
+        after_bs = [i + 1 for i, ch in enumerate(text) if ch == "\\"]
+        in_block = _block_string_backslashes(text)
+        if in_block and rs.chance(1, 3, "cut_in_block_string"):
+            # ... of a block string, where the only escape is \"""
+            text = text[: in_block[rs.below(len(in_block), "cut_at")]]
+        elif after_bs and rs.chance(1, 4, "cut_after_backslash"):
+            # right after a backslash: the lexer is inside an escape
+            text = text[: after_bs[rs.below(len(after_bs), "cut_at")]]
+        elif hotter and rs.chance(1, 4, "cut_hotter"):
             # inside / at the edge of string literals and escapes
             text = text[: hotter[rs.below(len(hotter), "cut_at")]]
         elif hot and rs.chance(1, 2, "cut_hot"):
@@ -222,9 +230,21 @@ def _gen_request(draws, spec, bundle, idx, profile, want_mut, tier="quick",
                   for j in range(i + 1, min(len(text), i + 6))]
         if inside and rs.chance(1, 2, "flip_in_escape"):
             pos = inside[rs.below(len(inside), "flip_escape_at")]
-        ch = ('"', "\\", "{", "}", "$", "@", "é", "#", "!", "0")[
-            rs.below(10, "flip_ch")]
-        text = text[:pos] + ch + text[pos + 1:]
+        elif rs.chance(1, 3, "flip_in_name"):
+            # one character of a NAME replaced by another name character: the
+            # text still parses, and names a field / type / argument /
+            # variable / directive / fragment that does not exist
+            names = [i for i, c in enumerate(text)
+                     if c.isalnum() and c.isascii()]
+            if names:
+                pos = names[rs.below(len(names), "flip_name_at")]
+                ch = "0xZ_"[rs.below(4, "flip_name_ch")]
+                text = text[:pos] + ch + text[pos + 1:]
+                pos = None
+        if pos is not None:
+            ch = ('"', "\\", "{", "}", "$", "@", "é", "#", "!", "0")[
+                rs.below(10, "flip_ch")]
+            text = text[:pos] + ch + text[pos + 1:]
     elif req.variant == "variables":
         if not _corrupt_variables(req, rs):
             req.variant = "normal"
@@ -397,6 +417,32 @@ def _finish_request(draws, spec, req, idx, profile, rs, tier):
         for a in ("ninstr", "mws", "tracer", "skew"):
             setattr(req.l2, a, getattr(req, a))
     return req
+
+
+def _block_string_backslashes(text):
+    """Positions right after each backslash that sits inside a block string."""
+    out = []
+    i = 0
+    while i < len(text):
+        if text.startswith('"""', i):
+            j = i + 3
+            while j < len(text) and not text.startswith('"""', j):
+                if text[j] == "\\":
+                    out.append(j + 1)
+                    if text.startswith('"""', j + 1):
+                        j += 3
+                j += 1
+            i = j + 3
+            continue
+        if text[i] == '"':
+            # skip an ordinary string
+            j = i + 1
+            while j < len(text) and text[j] not in '"\n':
+                j += 2 if text[j] == "\\" else 1
+            i = j + 1
+            continue
+        i += 1
+    return out
 
 
 def _inject_astral(text, rs):
@@ -987,13 +1033,13 @@ def _evaluate(res, prop, config, req, out, hooks):
                     # own key: the exception class that the entry point
                     # catches around execute() (a listed known finding on the
                     # blocking runtime must not mask any other lost crash)
-                    key = (config, "success", "ExecutionError-from-resolver")
-                    if config in ("blocking-opt", "blocking-gen",
-                                  "asyncio-inline"):
-                        # the resolver ran inside the entry point's own call
-                        # to execute()
-                        key = ("ExecutionError-from-resolver",
-                               "raised-inside-execute")
+                    # An ExecutionError can only come back as a RESPONSE
+                    # through the entry point's own 'except ExecutionError'
+                    # around execute(): the resolver raised while that call
+                    # was on the stack (any runtime -- resolvers that are not
+                    # handed to a thread / task run right there).
+                    key = ("ExecutionError-from-resolver",
+                           "raised-inside-execute")
                 V.append(Violation(("C08",), "crash_lost", key,
                                    "injected %s but got a result: %s" % (
                                        "/".join(classes),
